@@ -12,7 +12,7 @@ import jsmin_util as ju  # noqa: E402
 
 GROUP = "JsMin"
 THEOREMS = ["C33_only_locals_renamed", "C33_renamable_not_protected", "C33_renaming_injective_fresh",
-            "C33_no_capture", "C33_emit_relex_pairs_partial", "C33_emit_relex_lists", "C33_lexer_locality", "C33_emit_relex_refuted", "C33_old_refuted"]
+            "C33_no_capture", "C33_emit_relex_pairs_partial", "C33_emit_relex_lists", "C33_emit_relex_chain", "C33_lexer_locality", "C33_emit_relex_refuted", "C33_old_refuted"]
 META = {
     "group": "JsMin",
     "technique": "Coq proofs over a token-level Gallina model of minify.go (tokenize, collectLocals, renameLocals, name generator, emit) + vm_compute correspondence with the real functions byte-for-byte + node as behaviour oracle (search layer)",
